@@ -321,6 +321,11 @@ def main(ctx):
         for bc in bcfgs:
             cases.append(family.Case(src.encode(), 'C', bc, {'kind': 'brace-shape', 'file': 'shape:' + name}))
     ctx.extra['brace_shapes'] = nshape
+    # enumerated boolean-expression shapes x the options that insert / remove parentheses
+    for name, src in gen_c.paren_shapes():
+        for pc_ in ({'mod_full_paren_if_bool': 'true'}, {'mod_full_paren_assign_bool': 'true'}, {'mod_full_paren_return_bool': 'true'},
+                    {'mod_paren_on_return': 'add'}, {'mod_paren_on_return': 'remove'}):
+            cases.append(family.Case(src.encode(), 'C', dict(pc_), {'kind': 'paren-shape', 'file': 'shape:' + name}))
     raw = family.explore(ctx, judge, cases)
     raw += family.hyp_explore(ctx, judge, make_strategy, to_case, shards=16, examples=(250 if quick else 5000))
     family.triage(ctx, judge, raw)
